@@ -34,6 +34,15 @@ def n_class(n):
     return "1" if n == 1 else "2" if n == 2 else "small" if n <= 16 else "large"
 
 
+LOAD_FORMS = [(v, False) for v in LOAD_VIA] + [(v, True) for v in ("load_sig", "load_asig", "load_asig:label")]
+DT_CLASSES = ["<1 exact-4dp", "<1 rounding", "=1", ">1"]
+N_CLASSES = ["1", "2", "small", "large"]
+SWEEP = [(sv, lf, dc, nc, br) for sv in SAVE_VIA for lf in LOAD_FORMS for dc in DT_CLASSES for nc in N_CLASSES
+         for br in ("primary", "fallback")]
+N_SWEEP = len(SWEEP)
+ALL_CELLS = len(SWEEP) * 5   # x preceding event {none, overwrite-shorter, overwrite-longer, failed-save, failed-load}
+
+
 class World(object):
     def __init__(self):
         self.dir = tempfile.mkdtemp(prefix="verif-c16-")
@@ -70,6 +79,12 @@ class C16(Profile):
 
     def make_config(self, rng, tier, index):
         thorough = tier == "thorough"
+        if index < N_SWEEP:
+            sv, lf, dc, nc, br = SWEEP[index]
+            return {"run_class": "sweep", "faults_on": True, "fault_rate": 0.0, "fallback_bias": 0.0, "length": 0, "n_max": 256,
+                    "n_files": 1, "max_steps": 24,
+                    "sweep": {"save": sv, "load": lf[0], "m": lf[1], "dt_class": dc, "n_class": nc, "branch": br}}
+        index -= N_SWEEP
         rc = index % 3
         cfg = {
             "run_class": ["plain", "faults", "fallback"][rc],
@@ -325,7 +340,8 @@ class C16(Profile):
                     "faults; non-trivial = a load of a path whose content the file model knows returned and was compared "
                     "field by field; distinct_nontrivial = distinct cells (save entry point | load entry point and m | dt "
                     "class | npts class | parser branch | preceding event on that path) hit by such a compared save->load pair",
-            "matrix": {"cells_hit": len(cells), "sample": sorted(cells)[:40],
+            "matrix": {"cells_hit": len(cells), "cells_enumerated_by_the_directed_sweep": ALL_CELLS,
+                       "directed_sweep_runs": agg.get("run_class", {}).get("sweep", 0), "sample": sorted(cells)[:40],
                        "definition": "save via | load via (*m = scale factor given) | dt class | npts class | parser branch | preceding event"},
             "loads_compared": agg.get("loads_compared", 0),
             "loads_through_fallback_branch": agg.get("fallback_branch_loads", 0),
@@ -356,8 +372,55 @@ class Gen(object):
         self.files = ["f%d" % i for i in range(config["n_files"])]
         self.last_faulted = None
 
+    def _plan_sweep(self):
+        rng = self.rng
+        sw = self.cfg["sweep"]
+        n0 = {"1": 1, "2": 2, "small": rng.randint(3, 16), "large": rng.randint(17, 96)}[sw["n_class"]]
+        dts = {"<1 exact-4dp": DTS_EXACT, "<1 rounding": DTS_ROUND, "=1": [1.0], ">1": DTS_BIG[1:]}[sw["dt_class"]]
+
+        def save(n, fault=None):
+            op = self.g_save("f0")
+            op["via"] = sw["save"]
+            op["dt"] = rng.choice(dts)
+            v = self._values()
+            while len(v["v"]) < n:
+                v["v"] = v["v"] + v["v"] + [0.5]
+            v["v"] = v["v"][:n]
+            op["values"] = v
+            if fault:
+                op["fault"] = fault
+            return op
+
+        def load(fault=None):
+            op = {"op": "load", "f": "f0", "via": sw["load"]}
+            if sw["m"]:
+                op["m"] = rng.choice([2.0, -0.5, 1e-3, 9.81])
+            fl = {"kind": "K11"} if sw["branch"] == "fallback" else None
+            if fault:
+                if fl:
+                    fl["then"] = fault
+                else:
+                    fl = fault
+            if fl:
+                op["fault"] = fl
+            return op
+        # the n class is that of the record that is finally loaded in each phase; overwrites go around it
+        bigger = n0 + rng.randint(1, 20)
+        plan = [save(n0), load(),                                   # preceding event: none
+                save(bigger), save(n0), load(),                      # overwrite by a shorter record
+                save(max(1, n0 - 1) if n0 > 1 else 1), save(n0), load(),   # overwrite by a longer (or equal) record
+                save(n0, {"kind": rng.choice(["K6", "K7", "K8"]), "frac": rng.choice([0.0, 0.5, 0.9]), "errno": "ENOSPC"}),
+                save(n0), load(),                                    # after a failed save
+                load({"kind": "K9", "at": 0} if rng.random() < 0.5 else {"kind": "K10", "at": rng.choice([0, 1, 2])}),
+                load()]                                              # after a failed load
+        self.queue = plan
+
     def __call__(self, world, step):
         rng = self.rng
+        if self.cfg.get("sweep"):
+            if step == 0:
+                self._plan_sweep()
+            return self.queue.pop(0) if self.queue else None
         if self.emitted >= self.cfg["length"]:
             return None
         self.emitted += 1
